@@ -314,7 +314,7 @@ pub fn run(ctx: &Ctx, model: &mut Model, rep: &mut Report) {
         }
     }
     let d14 = open.iter().any(|o| o == "D14");
-    let n = if ctx.thorough { 3000 } else { 200 };
+    let n = if ctx.thorough { 3000 } else { 1000 };
     for i in 0..n {
         let mut r = Rng::for_case(ctx.seed ^ 0xC13, i as u64);
         let ascii_lf = i % 4 != 3;
